@@ -21,8 +21,9 @@ package jtypes
 //@   ensures result == res(v) && !wraps(result)
 //@   ensures !wraps(v) ==> result == v
 //@   ensures (valid(v) && canif(v) && valid(result)) ==> canif(result)
+//@   ensures valid(v) ==> valid(result)
 //@   assigns nothing
-//@   loop 0 invariant res(v) == res(old(v)) && ((valid(old(v)) && canif(old(v)) && valid(v)) ==> canif(v))
+//@   loop 0 invariant res(v) == res(old(v)) && ((valid(old(v)) && canif(old(v)) && valid(v)) ==> canif(v)) && (valid(old(v)) ==> valid(v))
 //@   loop 0 decreases depth(v)
 
 //@ func resolvedKind
